@@ -40,6 +40,8 @@ def gen_world(rng, P, name):
     if rng.random() < 0.25:
         scn.state_field = rng.choice(["status", "st8", "_s"])
     scn.bind_model = rng.random() < 0.4
+    if scn.listeners_ctor and scn.listener_kind == "class" and rng.random() < 0.2:
+        scn.listener_kind = "singleton"
     w.families.append(W.Family(scn=scn, cls_name="C17_" + name.replace("-", "_")))
     base = W.member_variant(rng, P, scn, f"{name}-m0")
     base.state_field = scn.state_field
@@ -119,7 +121,7 @@ def gen_world(rng, P, name):
         w.members.append(W.Member(fam=1, scn=tm))
         w.clones = [(a, b, "deepcopy", k) for (a, b, _m, k) in w.clones]
         w.twin_member = len(w.members) - 1
-    if scn.listener_kind == "hooks" and any(c[2] == "pickle" for c in w.clones):
+    if scn.listener_kind in ("hooks", "singleton") and any(c[2] == "pickle" for c in w.clones):
         # plain functions stored as instance attributes are not picklable (not a property of the library)
         w.clones = [(a, b, "deepcopy", k) for (a, b, _m, k) in w.clones]
     # behaviour tables must agree on the common prefix: all members share the original's table
